@@ -769,7 +769,7 @@ pub fn run(rep: &Report) {
     );
     rep.assume("user-defined types are exercised in a separate stratum (same name with another fixed width or variable width, another name with the same width), in key and value position, tables and multimap tables, write and read transactions");
     let n = match rep.tier {
-        Tier::Quick => 40_000u64,
+        Tier::Quick => 120_000u64,
         Tier::Thorough => 1_000_000u64,
     };
     run_cases(
